@@ -41,11 +41,22 @@ mod kernel {
     // TODO: |n| > 111
     pub const fn pow2i(mut n: i32) -> P32E2 {
         let sign = n.is_negative();
+        // 2^120 is maxpos and 2^-120 minpos: larger magnitudes saturate there
+        if n > 120 {
+            n = 120;
+        } else if n < -120 {
+            n = -120;
+        }
         if sign {
             n = -n;
         }
         let k = n >> 2;
-        let ex: u32 = ((n & 0x3) as u32) << (27 - k);
+        // with a regime of more than 28 bits the exponent field is cut off
+        let ex: u32 = if k <= 27 {
+            ((n & 0x3) as u32) << (27 - k)
+        } else {
+            ((n & 0x3) as u32) >> (k - 27)
+        };
         let ui = (0x7FFF_FFFF ^ (0x3FFF_FFFF >> k)) | ex;
 
         if sign {
